@@ -548,6 +548,11 @@ func (c *Compiler) applyUsesToNode(mod, nod, use parse.Node, parentStatus schema
 	if ur := use.Root(); ur != nil && ur.Type() == parse.NodeSubmodule {
 		kidmod = c.submodules[ur.Name()].GetModule()
 	}
+	// A 'uses' that was itself copied out of a grouping brings its nodes
+	// to the place it was copied to.
+	if ur := use.UsesRoot(); ur != nil && ur != use.Root() {
+		kidmod = ur
+	}
 
 	refinedNodes := []parse.Node{}
 	for _, kid := range group.Children() {
